@@ -91,3 +91,15 @@ def fam_block(sizes, spread=0.125, far=None, labels=("x",)):
                 units.append([1000.0 * (f + 1) + i, 1000.0 * (f + 1) + i + 1, labels[0]])
         anns.append([f"a{i}", units])
     return {"annotators": anns}
+
+
+def fam_block_lonely(p, q, ra, rb, labels=(None,)):
+    """Two annotators: a block of p x q mutually close units (every pair and every unit/empty combination is under
+    the cut: (p+1)(q+1)-1 candidates, enumerated first) followed by ra / rb far-away units, each of which has the
+    single candidate (itself, empty).  With annotator a0's index varying fastest, the k-th lonely unit of a1 is
+    candidate number (p+1)*q + k: sizes are chosen so that these fall on / just after a buffer boundary."""
+    lab = labels[0]
+    a = [[0.01 * i, 10 + 0.01 * i, lab] for i in range(p)] + [[1000.0 * (f + 1), 1000.0 * (f + 1) + 10, lab] for f in range(ra)]
+    b = [[0.005 + 0.01 * j, 10.005 + 0.01 * j, lab] for j in range(q)] + \
+        [[1000.0 * (f + 1) + 500, 1000.0 * (f + 1) + 510, lab] for f in range(rb)]
+    return {"annotators": [["a0", a], ["a1", b]]}
